@@ -1180,6 +1180,17 @@ def sort_by(I, args, callee):
         o = I.call_value(f, [Ref([a], 0), Ref([b], 0)])
         return o.variant == 'Less'
     insertion_sort(I, w, lt)
+    if 'unstable' in callee and len(w) > 20:
+        # an unstable sort may permute elements that compare Equal. std's implementation is an insertion sort (stable
+        # in effect) up to 20 elements; above that the model makes the demonic choice "every run of equal elements is
+        # reversed", so code that relies on stability fails here and the native replay decides whether it is real
+        i = 0
+        while i < len(w):
+            j = i + 1
+            while j < len(w) and I.call_value(f, [Ref([w[j - 1]], 0), Ref([w[j]], 0)]).variant == 'Equal':
+                j += 1
+            w[i:j] = w[i:j][::-1]
+            i = j
     s.arr.elems[s.start:s.start + s.length] = w
     return unit()
 
